@@ -93,7 +93,8 @@ impl PatternLinter for ModalOf {
             }
             // False positive: <word> _ might _ of _ course
             7 => return None,
-            _ => unreachable!(),
+            // Whitespace made of several tokens (e.g. a space followed by a line break).
+            _ => return None,
         };
 
         let span_modal_of = matched_toks[modal_index..modal_index + 3].span().unwrap();
